@@ -74,7 +74,7 @@ def confirm(src, pid, name):
 
 def run(names, all_props=False):
     if not names:
-        names = sorted(os.listdir(SEEDED))
+        names = sorted(n for n in os.listdir(SEEDED) if os.path.isdir(os.path.join(SEEDED, n)))
     rc, out = sh(['git', '-C', '/repo', 'status', '--porcelain'])
     if out.strip():
         print('refusing: /repo is not clean:\n' + out)
